@@ -772,11 +772,14 @@ func (pc ParseContext) compileCond(ctx context.Context, c ast.Children) (rel.Exp
 }
 
 func (pc ParseContext) compileCondWithControlVar(ctx context.Context, c ast.Children) (rel.Expr, error) {
-	conditions, err := pc.compileCondElements(ctx, c.(ast.One).Node.(ast.Branch)["condition"].(ast.Many)...)
+	// `cond x {}` has no arms at all: the children are absent, not empty.
+	conditionNodes, _ := c.(ast.One).Node.(ast.Branch)["condition"].(ast.Many)
+	valueNodes, _ := c.(ast.One).Node.(ast.Branch)["value"].(ast.Many)
+	conditions, err := pc.compileCondElements(ctx, conditionNodes...)
 	if err != nil {
 		return nil, err
 	}
-	values, err := pc.compileCondExprs(ctx, c.(ast.One).Node.(ast.Branch)["value"].(ast.Many)...)
+	values, err := pc.compileCondExprs(ctx, valueNodes...)
 	if err != nil {
 		return nil, err
 	}
